@@ -90,6 +90,11 @@ class State:
     def assume(self, cond):
         if z3.is_true(cond):
             return self
+        if z3.is_and(cond):
+            # one conjunct per fact: better slicing of hypotheses
+            for c in cond.children():
+                self.assume(c)
+            return self
         self.pc.append(cond)
         return self
 
